@@ -30,45 +30,62 @@ def theorem_names(path):
     prefix = ns.group(1) + "." if ns else ""
     return [prefix + m.group(1) for m in re.finditer(r"^theorem\s+(\S+)", src, re.M)]
 
-def forbidden_hits(lean_dir):
+def import_closure(lean_dir, roots):
+    """Project modules (PoryModel / PorySpec / PoryProofs) transitively imported by `roots`."""
+    seen = set(); todo = list(roots)
+    while todo:
+        m = todo.pop()
+        if m in seen: continue
+        p = os.path.join(lean_dir, *m.split(".")) + ".lean"
+        if not os.path.exists(p): continue
+        seen.add(m)
+        for mm in re.findall(r"^import\s+(Pory\S+)", open(p, encoding="utf-8").read(), re.M): todo.append(mm)
+    return seen
+
+def forbidden_hits(lean_dir, roots):
+    """Forbidden constructs in the modules the property's theorems depend on (comments ignored)."""
     hits = []
-    for sub in ("PoryModel", "PorySpec", "PoryProofs"):
-        for root, _, files in os.walk(os.path.join(lean_dir, sub)):
-            for f in files:
-                if not f.endswith(".lean"): continue
-                p = os.path.join(root, f)
-                for i, l in enumerate(strip_comments(open(p, encoding="utf-8").read()).split("\n")):
-                    if FORBIDDEN.search(l): hits.append("%s:%d: %s" % (os.path.relpath(p, lean_dir), i + 1, l.strip()[:80]))
-    if os.path.exists(os.path.join(lean_dir, "Main.lean")):
-        pass
+    for m in sorted(import_closure(lean_dir, roots)):
+        p = os.path.join(lean_dir, *m.split(".")) + ".lean"
+        for i, l in enumerate(strip_comments(open(p, encoding="utf-8").read()).split("\n")):
+            if FORBIDDEN.search(l): hits.append("%s:%d: %s" % (os.path.relpath(p, lean_dir), i + 1, l.strip()[:80]))
     return hits
 
+def property_modules(prop, lean_dir):
+    """Properties/Cxx.lean plus companion modules Properties/Cxx<letters>.lean (e.g. C02P, C05b)."""
+    d = os.path.join(lean_dir, "PoryProofs", "Properties")
+    out = []
+    for f in sorted(os.listdir(d)) if os.path.isdir(d) else []:
+        if re.match(r"^%s[A-Za-z]*\.lean$" % re.escape(prop), f): out.append(f[:-5])
+    return out
+
 def check_proofs(prop, lean_dir, sh, thorough=False):
-    mod = "PoryProofs.Properties." + prop
-    path = os.path.join(lean_dir, "PoryProofs", "Properties", prop + ".lean")
+    mods = property_modules(prop, lean_dir)
+    full = ["PoryProofs.Properties." + m for m in mods]
     rep = {"ok": True, "failed": [], "obligations": 0, "discharged": 0, "theorems": [], "axioms": {},
            "checker_cmd": "cd lean && lake build %s && lake env lean .audit/%s.lean   (#print axioms per theorem)%s" % (
-               mod, prop, " && lake env leanchecker " + mod if thorough else "")}
-    if not os.path.exists(path):
+               " ".join(full), prop, " && lake env leanchecker " + " ".join(full) if thorough else "")}
+    if not mods:
         rep["ok"] = False; rep["failed"].append("no theorem module for " + prop); return rep
-    names = theorem_names(path)
+    names = []
+    for m in mods:
+        names += theorem_names(os.path.join(lean_dir, "PoryProofs", "Properties", m + ".lean"))
     rep["theorems"] = names; rep["obligations"] = len(names)
-    rc, out = sh(["lake", "build", mod], cwd=lean_dir)
+    rc, out = sh(["lake", "build"] + full, cwd=lean_dir)
     if rc != 0:
         rep["ok"] = False
         errs = [l for l in out.split("\n") if "error" in l.lower()][:8]
-        rep["failed"].append("lake build %s failed: %s" % (mod, " | ".join(errs) or out[-800:]))
+        rep["failed"].append("lake build %s failed: %s" % (" ".join(full), " | ".join(errs) or out[-800:]))
         return rep
-    hits = forbidden_hits(lean_dir)
+    hits = forbidden_hits(lean_dir, full)
     if hits:
         rep["ok"] = False; rep["failed"].append("forbidden constructs: " + "; ".join(hits[:5]))
     os.makedirs(os.path.join(lean_dir, ".audit"), exist_ok=True)
     ap = os.path.join(lean_dir, ".audit", prop + ".lean")
-    open(ap, "w").write("import %s\n" % mod + "".join("#print axioms %s\n" % n for n in names))
+    open(ap, "w").write("".join("import %s\n" % m for m in full) + "".join("#print axioms %s\n" % n for n in names))
     rc, out = sh(["lake", "env", "lean", ap], cwd=lean_dir)
     if rc != 0:
         rep["ok"] = False; rep["failed"].append("axiom audit failed: " + out[-600:]); return rep
-    # parse "'name' depends on axioms: [a, b]" / "'name' does not depend on any axioms"
     flat = re.sub(r"\s+", " ", out)
     for n in names:
         m = re.search(r"'%s' depends on axioms: \[([^\]]*)\]" % re.escape(n), flat)
@@ -82,7 +99,8 @@ def check_proofs(prop, lean_dir, sh, thorough=False):
             rep["ok"] = False; rep["failed"].append("%s depends on %s" % (n, bad))
         else: rep["discharged"] += 1
     if thorough and rep["ok"]:
-        rc, out = sh(["lake", "env", "leanchecker", mod], cwd=lean_dir, timeout=1800)
-        if rc != 0:
-            rep["ok"] = False; rep["failed"].append("leanchecker rejected %s: %s" % (mod, out[-400:]))
+        for mod in full:
+            rc, out = sh(["lake", "env", "leanchecker", mod], cwd=lean_dir, timeout=3600)
+            if rc != 0:
+                rep["ok"] = False; rep["failed"].append("leanchecker rejected %s: %s" % (mod, out[-400:]))
     return rep
